@@ -298,6 +298,9 @@ func VerifC18Create() {
 		if errors.Is(err, ErrNotEnoughBudget) {
 			vReach("refused-budget")
 			vAssert(len(w.checked) == 0, "over-budget tx is not offered to the mempool")
+			// a refusal names a rule that is actually violated
+			vAssert(ctx != nil && ctx.tx != nil && c18TxFee(raw, ctx.tx) > int64(budget),
+				"ErrNotEnoughBudget only when the fee of the built tx exceeds the budget")
 		}
 		vAssert(verdict != c18VAccept || len(w.checked) == 0, "an accepted tx is not refused")
 		return
